@@ -216,6 +216,8 @@ type Evaluator struct {
 	onRS func(v, e T)
 	// decimal observer applications seen (for bridge-axiom instantiation)
 	onDec func(lo, hi T)
+	// prev(e): value of e at the head of the innermost enclosing loop
+	prev func(e Expr, env *Env) Val
 	// structure of real-valued terms (for distributing rs over + - ite)
 	lin  map[string][3]string // term -> (op, a, b)
 	ites map[string][3]T
@@ -587,6 +589,11 @@ func (ev *Evaluator) call(x *ECall, env *Env) Val {
 		e2.parent = env
 		e2.vars = nil
 		return ev.Eval(x.Args[0], &e2)
+	case "prev":
+		if ev.prev == nil {
+			ev.fail("prev() is only available inside loop bodies")
+		}
+		return ev.prev(x.Args[0], env)
 	case "u128":
 		return ev.weightedSum(ev.Eval(x.Args[0], env), 2)
 	case "u192":
